@@ -36,6 +36,7 @@ type Obligation struct {
 	Secs    float64
 	Model   string
 	QueryID int
+	Group   string // obligations of one group (same item list) are first tried as one query
 }
 
 type State struct {
@@ -111,6 +112,8 @@ type Loop struct {
 }
 
 type FnCtx struct {
+	filling   []fillRec
+	fillTypes map[string]bool
 	V    *Verifier
 	U    *Universe
 	fn   *ssa.Function
